@@ -589,7 +589,16 @@ class CallMixin:
                 return self.st.ghost[ck]       # a pure abstract callee: same receiver state, same result
             if st.get('raises') and self.st.oracle.choose(2) == 1:
                 raise PyRaise('StubException', f.name)
-            if 'returns_expr' in st:
+            if 'returns_uf' in st:
+                # an abstract but FUNCTIONAL callee: result = uf(receiver, arguments) - lets postconditions say which call produced what
+                terms = [self.as_opq(f.bound)] if f.bound is not None and f.bound.k in ('obj', 'opq') else []
+                for a_ in list(args):
+                    terms.append(self.as_opq(a_) if a_.k in ('obj', 'opq', 'none', 'list', 'dict', 'tuple') else self.opq_arg(a_))
+                uf_ = self.ufunc(st['returns_uf'], *[t_.sort() for t_ in terms], OPQ)
+                r = SV('opq', uf_(*terms), st.get('returns_tag'))
+            elif 'returns_expr_on_receiver' in st:
+                r = self.getattr_value(f.bound, st['returns_expr_on_receiver'])
+            elif 'returns_expr' in st:
                 r = self.ev_spec(st['returns_expr'], dict(self.st.frames[0].env))
             else:
                 r = self.fresh_of(st.get('returns', 'none'), 'stub_' + f.name)
